@@ -42,7 +42,8 @@ RULE = ("texts: (a) grammar-derived well-formed patterns / xpaths rendered with 
         "(two renderings each), (b) single-token mutations of them (deleted, duplicated, swapped, replaced token), "
         "(c) unknown and non-node class names, (d) random token sequences and random strings over the grammars' "
         "alphabet (letters, digits, _, the punctuation of both grammars, the five WS characters, double quote and backslash; "
-        "non-ASCII only inside quoted strings); outcome class + behaviour on 7 probe trees for every entry point; "
+        "non-ASCII only inside quoted strings), (e) pairs of accepted texts that differ only by a white-space run inside a quoted "
+        "regex, each observed right after the other (and a re-spacing of it) was compiled; outcome class + behaviour on 9 probe trees for every entry point; "
         "non-trivial = text longer than 3 characters; distinct by text")
 TRUSTED = ["lark LALR engine + contextual lexer re-modelled by hand-written recursive-descent parsers",
            "re.compile success is an input of the model (list of the quoted strings of the text that do not compile)",
@@ -115,6 +116,8 @@ def make_probes():
         zoo.Mixed(zoo.Un(L(v=3, s="x.y")), (zoo.Leaf2(v=0, s="None", extra=("a", "b")), zoo.Tup(())), None, name="n(1)"),
         zoo.PropZoo(t=(1, 2), o=None),
         zoo.Names(child=L(v=7), root=None, items=(L(v=7, origin=o2),)),
+        zoo.Two(a="return  x", b="return x"),
+        L(v=2, s="a \tb  c"),
     ]
 
 
@@ -149,8 +152,8 @@ def behaviour(match_fn):
 REJECT = dumps([A("raise"), A("ASTPatternDefinitionError")])
 
 
-def observe_pattern(text: str, probes: bool):
-    """canonical outcome per entry point"""
+def observe_pattern(text: str, probes: bool, pre: tuple = ()):
+    """canonical outcome per entry point; `pre`: texts compiled (and cached) just before"""
     outs = {}
     try:
         ok, _ = validate_pattern(text)
@@ -158,6 +161,8 @@ def observe_pattern(text: str, probes: bool):
     except Exception as e:  # noqa
         outs["validate"] = f"OTHER({type(e).__name__})"
     pm._MATCHER_CACHE.clear()
+    for t in pre:
+        NodeMatcher.from_pattern(t)
     for key in ("cold", "cached"):
         try:
             m, _ = NodeMatcher.from_pattern(text)
@@ -182,14 +187,14 @@ def observe_pattern(text: str, probes: bool):
     return outs
 
 
-_STR_FIELDS = "s|tag|name|lit"
+_STR_FIELDS = "s|tag|name|lit|a|b"
 _RE_ON_NODE = re.compile(r"@\s*(?:items|pair|left|right|arg|c|z|a|child|root|extra|t|tf)\s*=\s*\"\"")
 _RE_IN_SEQ = re.compile(r"\[[^\]]*\"\"")
 _FLOAT_FIELD = re.compile(r"@\s*fl(?![A-Za-z0-9_])")
 _SEQ_ON_STR = re.compile(r"@\s*(?:" + _STR_FIELDS + r")\s*=\s*\[")
 
 
-def pattern_case(text: str, kind: str, expect_accept: bool | None = None):
+def pattern_case(text: str, kind: str, expect_accept: bool | None = None, pre: tuple = ()):
     qs = quoted(text)
     probes = all(rx_supported(c) for c in qs)
     bare = _ESC.sub('""', text)
@@ -199,7 +204,7 @@ def pattern_case(text: str, kind: str, expect_accept: bool | None = None):
         probes = False      # C08 don't-care point: a regex against a node- or tuple-valued field / sequence element
     if "$" in bare and _FLOAT_FIELD.search(bare):
         probes = False      # outside the value model: a float compared with a non-float by a $variable (0.0 == 0)
-    outs = observe_pattern(text, probes)
+    outs = observe_pattern(text, probes, pre)
     real = outs["cold"]
     oracle = None
     sig = "pattern|model"
@@ -223,7 +228,8 @@ def pattern_case(text: str, kind: str, expect_accept: bool | None = None):
             sig = "pattern|reject"
     line = dumps([A("pcompile")] + ENV + [[A("rxbad")] + rx_bad(text), [A("text"), text],
                                         [A("probes")] + (_PENC if probes else [])])
-    return Case(kind, line, real, len(text) > 3, f"pattern text={text!r}", oracle_fail=oracle, sig=sig), real
+    d = f"pattern text={text!r}" + (f" compiled right after {list(pre)!r}" if pre else "")
+    return Case(kind, line, real, len(text) > 3, d, oracle_fail=oracle, sig=sig), real
 
 
 def _els(xp):
@@ -423,6 +429,37 @@ FIXED_X = ["/Leaf", "//Leaf", "Leaf", " /Leaf", "/Leaf ", "/@items[1]Leaf", "/@i
            "/Leaf//", "/ Mixed / @ z Un", "/Mixed/[1]", "/Mixed/@items[1]Tup", "/1", "/A[", "/@", "/@[1]Leaf", "/Leaf Leaf"]
 
 
+WS_SUBJECTS = ["return  x", "return x", "a \tb  c"]
+
+
+def ws_twins(rng):
+    """two accepted texts that differ only by a white-space run inside a quoted regex (different meaning) and a
+    re-spacing between the tokens (same meaning); each is observed right after the other was compiled"""
+    subj = rng.choice(WS_SUBJECTS)
+    runs = [m for m in re.finditer(r"[ \t]+", subj)]
+    m = rng.choice(runs)
+    other = rng.choice([r for r in P8.WS_RUNS if r != m.group()])
+    subj2 = subj[: m.start()] + other + subj[m.end():]
+    tail = rng.choice(["$", "", ".*"])
+    ra, rb = P8.rx_lit(subj) + tail, P8.rx_lit(subj2) + tail
+    shape = rng.choice(["two", "leaf", "two2"])
+
+    def toks(r):
+        q = '"' + r + '"'
+        if shape == "leaf":
+            return ["(", "Leaf", "@", "s", "=", q, "->", "t", ")"]
+        if shape == "two":
+            return ["(", "Two", "@", rng_f, "=", q, "->", "t", ")"]
+        return ["(", "*", "@", "a", "->", "k", "@", "b", "=", q, ")"]
+
+    rng_f = "b"     # (`a` is also a child field of Mixed: regex-vs-node guard)
+    ta, tb = toks(ra), toks(rb)
+    a1 = P8.render(rng, ta)
+    b1 = a1.replace('"' + ra + '"', '"' + rb + '"') if rng.random() < 0.6 else P8.render(rng, tb)
+    a2 = P8.render(rng, ta, spaced=rng.random() < 0.6)
+    return a1, a2, b1
+
+
 def cases(rng: random.Random, tier: str):
     for t in FIXED_P:
         yield pattern_case(t, "pattern_fixed")[0]
@@ -448,6 +485,17 @@ def cases(rng: random.Random, tier: str):
         yield c2
         for _ in range(3):
             yield pattern_case(P8.render(rng, mutate(rng, toks, PTOKENS), spaced=rng.random() < 0.6), "pattern_mutant")[0]
+        # near-identical texts compiled back to back, both orders
+        a1, a2, b1 = ws_twins(rng)
+        ca, ra_ = pattern_case(a1, "pattern_ws_twin", expect_accept=True, pre=(b1,))
+        cb, _ = pattern_case(b1, "pattern_ws_twin", expect_accept=True, pre=(a1, a2))
+        cc, rc_ = pattern_case(a2, "pattern_ws_twin", expect_accept=True, pre=(b1, a1))
+        if ra_ != rc_ and not cc.oracle_fail:
+            cc.oracle_fail = f"white space between tokens changes the meaning: {a1!r} -> {ra_} but {a2!r} -> {rc_}"
+            cc.sig = "pattern|whitespace"
+        yield ca
+        yield cb
+        yield cc
         for _ in range(2):
             yield pattern_case(random_text(rng, PTOKENS), "pattern_random")[0]
         rp = rand_pat(rng, 1)
